@@ -29,7 +29,8 @@ import (
 )
 
 var walletNames = []string{"Wallet1", "Other"}
-var accountNames = [][]string{{"acc1", "acc2", "Val.1"}, {"acc1"}}
+// "acc11" and "zacc1" contain "acc1": a path naming acc1 must list neither (whole-name matching)
+var accountNames = [][]string{{"acc1", "acc11", "zacc1", "Val.1"}, {"acc1"}}
 var paths = []string{"Wallet1", "Wallet1/", "Wallet1/acc.*", "Wallet1/acc1", "Wallet1/.*1", "Other", "Nope", "", "/x", "Wallet1/["}
 
 type world struct {
